@@ -3,40 +3,54 @@
 (* The filter pipeline of Mako (property C02).                             *)
 (*                                                                         *)
 (* Mirrors mako/codegen.py: create_filter_callable (and its callers        *)
-(* visitExpression, write_def_finish, write_cache_decorator, visitTextTag): *)
-(* a construct is a short program of STAGES, each stage one call of        *)
-(* create_filter_callable(args, target, is_expression); a stage composes   *)
-(* its argument list (prepend the <%page expression_filter> list, then the *)
-(* default_filters, as the `n` rules allow) and then applies the filters   *)
-(* one by one, innermost first.  Filters are abstract symbols; the state   *)
-(* is the SEQUENCE OF FILTER APPLICATIONS performed so far (`apps`), each   *)
-(* entry the documented function a flag denotes (NameTable) or the         *)
-(* callable's own spelling.                                                *)
+(* visitExpression, write_def_finish, write_cache_decorator, visitTextTag). *)
+(* A SESSION is what a user sets up: one default_filters list OBJECT `D`   *)
+(* and one buffer_filters list `BF` (handed to Template(...) or to a       *)
+(* TemplateLookup and therefore SHARED by everything compiled from it), a  *)
+(* template with an optional <%page expression_filter> list `P` holding a  *)
+(* SEQUENCE of constructs, and optionally a second template (no page tag)  *)
+(* compiled afterwards from the same lookup / the same list objects.       *)
+(* Constructs are compiled in order; each is a short program of STAGES,    *)
+(* each stage one call of create_filter_callable(args, target,             *)
+(* is_expression): compose the argument list (prepend P, then D, as the    *)
+(* `n` rules allow), then apply the filters one by one, innermost first.   *)
+(* Filters are abstract symbols; apps[i] is the SEQUENCE OF FILTER         *)
+(* APPLICATIONS performed for construct i, each entry the documented       *)
+(* function a flag denotes (NameTable) or the callable's own spelling.     *)
+(* `dobj` / `bobj` are the contents of the shared list objects as the      *)
+(* compiler (and afterwards the caller) sees them.                         *)
 (*                                                                         *)
-(* The property (PipelineOrder) is stated declaratively, from the property *)
-(* text:  ${x | f1, f2} writes f2(f1(P(D(x)))); `n` among the expression's  *)
-(* filters disables D and P; `n` in the page list disables only D; no      *)
-(* configuration means D = str; filter= on defs/blocks/<%text> applies its *)
-(* list only (no D, no P); a buffered def returns filter=, then            *)
-(* buffer_filters, and the calling expression applies its own pipeline to   *)
-(* that; a cached buffered def applies buffer_filters once.                *)
+(* The property: PipelineOrder -- for EVERY construct of the session,      *)
+(* ${x | f1, f2} writes f2(f1(P(D(x)))); `n` among the expression's filters *)
+(* disables D and P; `n` in the page list disables only D; no configuration *)
+(* means D = str; filter= on defs/blocks/<%text> applies its list only; a  *)
+(* buffered def returns filter=, then buffer_filters, and the calling      *)
+(* expression applies its own pipeline to that; a cached buffered def      *)
+(* applies buffer_filters once -- and ConfigImmutable: compiling never     *)
+(* changes the configuration objects, so the k-th construct and a later    *)
+(* template see the same D as the first.                                   *)
 (***************************************************************************)
 EXTENDS Naturals, Sequences, FiniteSets, TLC
 
-VARIABLES cfg,     \* [c |-> construct, D, P, E, BF]  D/P = <<"$absent">>: not configured
-          stage,   \* index of the current stage
+VARIABLES cfg,     \* [D, P, BF, items, items2]; an item is [c |-> construct, E |-> its own filter list]
+          dobj,    \* content of the default_filters list object
+          bobj,    \* content of the buffer_filters list object
+          item,    \* index of the construct being compiled (over items \o items2)
+          stage,   \* index of the current stage of that construct
           args,    \* the argument list of the current stage (as composed so far)
           phase,   \* "page" | "defaults" | "apply" | "done"
-          apps     \* filter applications so far, innermost first
-fvars == <<cfg, stage, args, phase, apps>>
+          apps     \* apps[i]: filter applications of construct i so far, innermost first
+fvars == <<cfg, dobj, bobj, item, stage, args, phase, apps>>
 
 Absent == <<"$absent">>
 Range(s) == {s[i] : i \in 1..Len(s)}
 Has(s, x) == x \in Range(s)
 Without(s, x) == SelectSeq(s, LAMBDA y : y # x)
+AllItems(c) == c.items \o c.items2
+\* the page filter list in force for construct i: the second template has no page tag
+PageOf(c, i) == IF i <= Len(c.items) /\ c.P # Absent THEN c.P ELSE <<>>
 \* what Template(default_filters=None) means
-EffD(c) == IF c.D = Absent THEN <<"str">> ELSE c.D
-EffP(c) == IF c.P = Absent THEN <<>> ELSE c.P
+Eff(d) == IF d = Absent THEN <<"str">> ELSE d
 
 \* NameTable: the documented function of each builtin flag; anything else is the callable spelled that way
 Resolve(t) == CASE t = "h" -> "html_escape" [] t = "x" -> "xml_escape" [] t = "u" -> "url_escape"
@@ -45,56 +59,67 @@ Resolve(t) == CASE t = "h" -> "html_escape" [] t = "x" -> "xml_escape" [] t = "u
 Names(s) == [i \in 1..Len(s) |-> Resolve(s[i])]
 Flags == {"h", "x", "u", "entity", "unicode", "n"}
 
-\* the stages of a construct: [a |-> argument list, x |-> is_expression]
-Stages(c) ==
-  CASE c.c = "expr" -> << [a |-> c.E, x |-> TRUE] >>
-    [] c.c \in {"def", "block", "text", "cacheddef"} -> << [a |-> c.E, x |-> FALSE] >>
+\* the stages of a construct: [a |-> argument list, x |-> is_expression]; bf = buffer_filters as the compiler reads them
+Stages(it, bf) ==
+  CASE it.c = "expr" -> << [a |-> it.E, x |-> TRUE] >>
+    [] it.c \in {"def", "block", "text", "cacheddef"} -> << [a |-> it.E, x |-> FALSE] >>
     \* buffered def called as ${f()}: filter=, buffer_filters, then the calling expression (no local filters)
-    [] c.c \in {"bufdef", "cachedbufdef"} -> << [a |-> c.E, x |-> FALSE], [a |-> c.BF, x |-> FALSE], [a |-> <<>>, x |-> TRUE] >>
+    [] it.c \in {"bufdef", "cachedbufdef"} -> << [a |-> it.E, x |-> FALSE], [a |-> bf, x |-> FALSE], [a |-> <<>>, x |-> TRUE] >>
+Cur == AllItems(cfg)[item]
 
-FInit(c) == cfg = c /\ stage = 1 /\ args = Stages(c)[1].a /\ phase = "page" /\ apps = <<>>
+FInit(c) == /\ cfg = c /\ dobj = c.D /\ bobj = c.BF /\ item = 1 /\ stage = 1
+            /\ args = Stages(AllItems(c)[1], c.BF)[1].a /\ phase = "page"
+            /\ apps = [i \in 1..Len(AllItems(c)) |-> <<>>]
 
 \* `if "n" not in args: if is_expression: if pagetag: args = pagetag.filter_args.args + args`
 PrependPage ==
   /\ phase = "page"
-  /\ IF Stages(cfg)[stage].x /\ ~Has(args, "n")
-     THEN args' = EffP(cfg) \o args /\ phase' = "defaults"
+  /\ IF Stages(Cur, bobj)[stage].x /\ ~Has(args, "n")
+     THEN args' = PageOf(cfg, item) \o args /\ phase' = "defaults"
      ELSE args' = args /\ phase' = "apply"
-  /\ UNCHANGED <<cfg, stage, apps>>
-\* `if default_filters and "n" not in args: args = default_filters + args`
+  /\ UNCHANGED <<cfg, dobj, bobj, item, stage, apps>>
+\* `if default_filters and "n" not in args: args = default_filters + args`   (a NEW list: the object is only read)
 PrependDefaults ==
   /\ phase = "defaults"
-  /\ args' = (IF ~Has(args, "n") THEN EffD(cfg) \o args ELSE args)
-  /\ phase' = "apply" /\ UNCHANGED <<cfg, stage, apps>>
+  /\ args' = (IF ~Has(args, "n") THEN Eff(dobj) \o args ELSE args)
+  /\ phase' = "apply" /\ UNCHANGED <<cfg, dobj, bobj, item, stage, apps>>
 \* `for e in args: if e == "n": continue; target = locate_encode(e)(target)`
 ApplyOne ==
   /\ phase = "apply" /\ args # <<>>
-  /\ apps' = (IF Head(args) = "n" THEN apps ELSE Append(apps, Resolve(Head(args))))
-  /\ args' = Tail(args) /\ UNCHANGED <<cfg, stage, phase>>
+  /\ apps' = (IF Head(args) = "n" THEN apps ELSE [apps EXCEPT ![item] = Append(@, Resolve(Head(args)))])
+  /\ args' = Tail(args) /\ UNCHANGED <<cfg, dobj, bobj, item, stage, phase>>
 NextStage ==
   /\ phase = "apply" /\ args = <<>>
-  /\ IF stage < Len(Stages(cfg))
-     THEN stage' = stage + 1 /\ args' = Stages(cfg)[stage + 1].a /\ phase' = "page"
-     ELSE stage' = stage /\ args' = args /\ phase' = "done"
-  /\ UNCHANGED <<cfg, apps>>
+  /\ IF stage < Len(Stages(Cur, bobj))
+     THEN item' = item /\ stage' = stage + 1 /\ args' = Stages(Cur, bobj)[stage + 1].a /\ phase' = "page"
+     ELSE IF item < Len(AllItems(cfg))
+     THEN item' = item + 1 /\ stage' = 1 /\ args' = Stages(AllItems(cfg)[item + 1], bobj)[1].a /\ phase' = "page"
+     ELSE item' = item /\ stage' = stage /\ args' = args /\ phase' = "done"
+  /\ UNCHANGED <<cfg, dobj, bobj, apps>>
 FNext == PrependPage \/ PrependDefaults \/ ApplyOne \/ NextStage
 
 (***************************************************************************)
 (* The property                                                            *)
 (***************************************************************************)
-\* pipeline of an expression with local filters e:  E' after P' after D'
-ExprPipe(c, e) ==
+\* pipeline of an expression with local filters e under defaults d and page list p:  E' after P' after D'
+ExprPipe(d, p, e) ==
   LET localN == Has(e, "n")
-      pageN  == Has(EffP(c), "n")
-  IN (IF localN \/ pageN THEN <<>> ELSE Names(Without(EffD(c), "n")))
-     \o (IF localN THEN <<>> ELSE Names(Without(EffP(c), "n")))
+      pageN  == Has(p, "n")
+  IN (IF localN \/ pageN THEN <<>> ELSE Names(Without(Eff(d), "n")))
+     \o (IF localN THEN <<>> ELSE Names(Without(p, "n")))
      \o Names(Without(e, "n"))
-Expected(c) ==
-  CASE c.c = "expr" -> ExprPipe(c, c.E)
-    [] c.c \in {"def", "block", "text", "cacheddef"} -> Names(Without(c.E, "n"))
-    [] c.c \in {"bufdef", "cachedbufdef"} -> Names(Without(c.E, "n")) \o Names(Without(c.BF, "n")) \o ExprPipe(c, <<>>)
-PipelineOrder == phase = "done" => apps = Expected(cfg)
-NameTable == \A i \in 1..Len(apps) : apps[i] \notin Flags
-\* applications only ever grow at the outer end
-Monotone == [][\E k \in 0..1 : Len(apps') = Len(apps) + k /\ SubSeq(apps', 1, Len(apps)) = apps]_fvars
+\* stated on the configuration AS THE USER WROTE IT (cfg.D, cfg.BF), for construct i
+Expected(c, i) ==
+  LET it == AllItems(c)[i]  p == PageOf(c, i) IN
+  CASE it.c = "expr" -> ExprPipe(c.D, p, it.E)
+    [] it.c \in {"def", "block", "text", "cacheddef"} -> Names(Without(it.E, "n"))
+    [] it.c \in {"bufdef", "cachedbufdef"} -> Names(Without(it.E, "n")) \o Names(Without(c.BF, "n")) \o ExprPipe(c.D, p, <<>>)
+\* every construct already compiled -- the first, the k-th, those of the second template -- got its documented pipeline
+PipelineOrder == \A i \in 1..Len(apps) : (i < item \/ phase = "done") => apps[i] = Expected(cfg, i)
+\* compiling never changes the shared configuration objects
+ConfigImmutable == dobj = cfg.D /\ bobj = cfg.BF
+NameTable == \A i \in 1..Len(apps) : \A j \in 1..Len(apps[i]) : apps[i][j] \notin Flags
+\* applications only ever grow at the outer end of the construct being compiled
+Monotone == [][\A i \in 1..Len(apps) : \E k \in 0..1 : Len(apps'[i]) = Len(apps[i]) + k /\ SubSeq(apps'[i], 1, Len(apps[i])) = apps[i]
+                                                       /\ (k = 1 => i = item)]_fvars
 =============================================================================
